@@ -584,6 +584,15 @@ def construct(ex, cls: ClassInfo, args, kwargs):
         if post is not None:
             ex.call_y0(post, [], {}, self_val=obj)
         return obj
+    if not cls.is_dataclass:
+        # plain class: a fresh owned record; __init__ (real code) fills it
+        obj = VObj(cls, {}, owned=True)
+        init = ex.repo.find_method(cls, "__init__")
+        if init is not None:
+            ex.call_y0(init, list(args), dict(kwargs), self_val=obj)
+        elif args or kwargs:
+            raise OutOfSubset(f"constructor {cls.qualname} with arguments but no __init__")
+        return obj
     raise OutOfSubset(f"constructor {cls.qualname}")
 
 
@@ -1014,7 +1023,12 @@ def call_method(ex, obj, name, args, kwargs):
                 return obj.fields.get(k.s, args[1] if len(args) > 1 else NONE)
     if isinstance(obj, VFam):
         if name == "pop" and not args:
-            raise OutOfSubset("pop on a family")
+            # an arbitrary member of a set of frozensets (the set itself is a temporary here: removal is not tracked)
+            ex.require(L.exists(1, lambda r: obj.idx(r)), "KeyError", "pop")
+            r0 = L.node("member")
+            ex.assume(obj.idx(r0))
+            ex.assumption_notes.add("set.pop() on a set of frozensets returns an arbitrary member (no order assumed)")
+            return VSet(lambda x: obj.mem(r0, x), kind="frozenset", owned=False)
     raise OutOfSubset(f"method {name} on {type(obj).__name__}")
 
 
